@@ -4,6 +4,7 @@ import (
 	"context"
 	"fmt"
 	"math/rand"
+	"reflect"
 
 	"google.golang.org/grpc"
 	"google.golang.org/grpc/codes"
@@ -56,6 +57,45 @@ func touch(m proto.Message) int {
 		return 0
 	}
 	return proto.Size(m)
+}
+
+// touchEvent reads every exported field of a received change event (not only the messages it carries), the way a
+// consumer that switches on the change type or the seed flags would.
+func touchEvent(e any) int {
+	v := reflect.ValueOf(e)
+	if v.Kind() == reflect.Ptr {
+		if v.IsNil() {
+			return 0
+		}
+		v = v.Elem()
+	}
+	n := 0
+	if v.Kind() != reflect.Struct {
+		return 0
+	}
+	for i := 0; i < v.NumField(); i++ {
+		if !v.Type().Field(i).IsExported() {
+			continue
+		}
+		f := v.Field(i)
+		if m, ok := f.Interface().(proto.Message); ok {
+			n += touch(m)
+			continue
+		}
+		switch f.Kind() {
+		case reflect.Bool:
+			if f.Bool() {
+				n++
+			}
+		case reflect.Int, reflect.Int32, reflect.Int64:
+			n += int(f.Int())
+		case reflect.String:
+			n += len(f.String())
+		case reflect.Struct:
+			n += int(f.NumField()) + len(fmt.Sprint(f.Interface()))
+		}
+	}
+	return n
 }
 
 type raceOp func(t *Task)
@@ -143,6 +183,7 @@ func raceValue(w *World) {
 						select {
 						case e, ok := <-ch:
 							if ok {
+								touchEvent(e)
 								touch(e.Value)
 							}
 						default:
@@ -218,15 +259,23 @@ func raceColl(w *World) {
 			default:
 				bp, uo, pid := t.Flag(1, 2), t.Flag(1, 3), t.Flag(1, 3)
 				recvs := 1 + t.Choose(3)
+				lag := 0
+				if t.Flag(1, 3) {
+					lag = 2 + t.Choose(4) // a subscriber that falls behind before it reads: changes pile up (and are merged) in the library
+				}
 				lists[i] = append(lists[i], func(task *Task) {
 					ctx, cancel := context.WithCancel(context.Background())
 					if pid {
 						ch := c.PullID(ctx, id, resource.WithBackpressure(bp), resource.WithUpdatesOnly(uo))
+						for r := 0; r < lag; r++ {
+							task.Yield("lag")
+						}
 						for r := 0; r < recvs; r++ {
 							task.Yield("recv")
 							select {
 							case e, ok := <-ch:
 								if ok {
+									touchEvent(e)
 									touch(e.Value)
 								}
 							default:
@@ -239,11 +288,15 @@ func raceColl(w *World) {
 						return
 					}
 					ch := c.Pull(ctx, resource.WithBackpressure(bp), resource.WithUpdatesOnly(uo))
+					for r := 0; r < lag; r++ {
+						task.Yield("lag")
+					}
 					for r := 0; r < recvs; r++ {
 						task.Yield("recv")
 						select {
 						case e, ok := <-ch:
 							if ok {
+								touchEvent(e)
 								touch(e.OldValue)
 								touch(e.NewValue)
 							}
@@ -459,6 +512,7 @@ func raceModels(w *World) {
 							select {
 							case e, ok := <-ch:
 								if ok {
+									touchEvent(e)
 									touch(e.NewValue)
 									touch(e.OldValue)
 								}
@@ -474,6 +528,7 @@ func raceModels(w *World) {
 							select {
 							case e, ok := <-ch:
 								if ok {
+									touchEvent(e)
 									touch(e.ActiveMode)
 								}
 							default:
@@ -488,6 +543,7 @@ func raceModels(w *World) {
 							select {
 							case e, ok := <-ch:
 								if ok {
+									touchEvent(e)
 									touch(e.Value)
 								}
 							default:
@@ -532,6 +588,7 @@ func raceModels(w *World) {
 						select {
 						case e, ok := <-ch:
 							if ok {
+								touchEvent(e)
 								touch(e.NewValue)
 								touch(e.OldValue)
 							}
@@ -582,6 +639,7 @@ func raceModels(w *World) {
 						select {
 						case e, ok := <-ch:
 							if ok {
+								touchEvent(e)
 								touch(e.Metadata)
 							}
 						default:
